@@ -504,7 +504,7 @@ func prepareCall(fr *frame, call *ssa.CallCommon) (fn value, args []value) {
 		// Interface method invocation.
 		recv := v.(iface)
 		if recv.t == nil {
-			panic("method invoked on nil interface")
+			runtimePanic(fr.i, "invalid memory address or nil pointer dereference (method call on nil interface)")
 		}
 		if f := lookupMethod(fr.i, recv.t, call.Method); f == nil {
 			// Unreachable in well-typed programs.
@@ -527,7 +527,7 @@ func call(i *interpreter, caller *frame, callpos token.Pos, fn value, args []val
 	switch fn := fn.(type) {
 	case *ssa.Function:
 		if fn == nil {
-			panic("call of nil function") // nil of func type
+			runtimePanic(i, "invalid memory address or nil pointer dereference (call of nil func)")
 		}
 		return callSSA(i, caller, callpos, fn, args, nil)
 	case *closure:
